@@ -45,6 +45,8 @@ fn pair_specs() -> Vec<(&'static str, (u32, Vec<u8>, Vec<u8>), (u32, Vec<u8>, Ve
     ("threshold 1 vs 1", (1, m1.clone(), r1.clone()), (1, m2.clone(), r2.clone())),
     ("threshold 3, different message and coins", (3, m1.clone(), r1.clone()), (3, m2.clone(), r2.clone())),
     ("short and empty strings", (2, vec![], vec![]), (2, vec![7], vec![])),
+    ("message||coins equal at another split (M1 || R1[..8], R1[8..])", (2, m1.clone(), r1.clone()), (2, [&m1[..], &r1[..8]].concat(), r1[8..].to_vec())),
+    ("message||coins equal at another split, t=3", (3, m1[..16].to_vec(), r1.clone()), (3, [&m1[..16], &r1[..1]].concat(), r1[1..].to_vec())),
     ("threshold 3 vs 2, different message", (3, m1, r1), (2, m2, r2)),
   ]
 }
@@ -322,7 +324,7 @@ pub fn spec() -> PropSpec {
     checks: vec![
       Check {
         name: "mixtures",
-        rule: "8 pairs of sharings (different message / coins / threshold / lengths); every sequence of length 1..t+2 over the union of their shares handed to adss::recover; distinct = sequences",
+        rule: "10 pairs of sharings (different message / coins / threshold / lengths / same message||coins bytes split elsewhere); every sequence of length 1..t+2 over the union of their shares handed to adss::recover; distinct = sequences",
         gen: |_| (0..pair_specs().len()).map(|i| json!({"pair": i})).collect(),
         run: run_mixtures,
         min_counts: &[("ok", 100), ("err", 100)],
